@@ -418,6 +418,12 @@ class PageTemplate(BaseTemplate):
             digest.update(
                 (";{}:={}".format(name, _qualified(factory))).encode('utf-8')
             )
+        # The content type selects XML or HTML parsing; it is detected
+        # from the raw input, not from the decoded body alone
+        content_type = getattr(self, 'content_type', None)
+        digest.update(
+            (";content_type={}".format(content_type)).encode('utf-8')
+        )
 
         return digest.hexdigest()[:32]
 
